@@ -333,7 +333,9 @@ def execute(plan):
         probes["callable proxy bound to a module global"] = 1
     return {
         "violations": V,
-        "digest": R.digest([B["summary"], [list(map(str, e)) for e in B["hj"]], B["exc"], lg.flushes, len(lg.logs)]),
+        # metaclass __eq__/__hash__ invocation counts depend on id()-based hashes (memory layout): excluded from the digest
+        "digest": R.digest([B["summary"], [list(map(str, e)) for e in B["hj"] if not e[1].startswith("Meta.")],
+                            B["exc"], lg.flushes, len(lg.logs)]),
         "sig": R.digest([c02.sig_of(B["journal"], lp), sorted(fired), plan["pre_profiler"], plan["block_exit"]]),
         "nontrivial": bool(n_tw or fired),
         "evaluated": evaluated,
